@@ -466,6 +466,12 @@ func (r *run) c06Structured(t typeInfo, thorough bool) {
 		r.c06Payload(t, []byte{0, 0xe9, 0x74, 0xe9, 0})
 		r.c06Payload(t, []byte{0, 0x61, 0x62, 0xe4, 0xbd, 0})
 		r.c06Payload(t, []byte{0, 0x78, 0x80, 0x79, 0})
+		// text that ends in NULs of its own (a sender that pads): the decoder takes everything up to the last
+		// octet, the encoder must write all of it back
+		r.c06Payload(t, []byte{0, 0x4f, 0x4b, 0, 0})
+		r.c06Payload(t, []byte{0, 0, 0})
+		r.c06Payload(t, []byte{0, 0x41, 0, 0, 0, 0})
+		r.c06Payload(t, []byte{0, 0, 0x41, 0})
 		for i := 0; i < n; i++ {
 			l := r.rnd.Intn(24)
 			if i%50 == 0 {
@@ -489,6 +495,9 @@ func (r *run) c06Structured(t typeInfo, thorough bool) {
 				default:
 					p = append(p, byte(0x20+r.rnd.Intn(0x5f)))
 				}
+			}
+			if i%13 == 0 {
+				p = append(p, make([]byte, 1+r.rnd.Intn(3))...) // trailing NULs inside the text
 			}
 			p = append(p, 0)
 			switch i % 11 {
